@@ -13,11 +13,14 @@ R == Rec[l]
 
 CaseOf(r) == <<r.comb, <<r.inp[1], r.inp[2]>>, <<r.k[1], r.k[2]>>>>
 
+Untouched(v) == IF v[1] \in {"ok", "some"} /\ v[2] > 100 THEN <<v[1], v[2] - 100>> ELSE v
+
 TStep ==
   /\ l <= Len(Rec) /\ R.ev = "pc"
   /\ LET case == CaseOf(R) IN
        /\ case \in Domain
-       /\ <<R.out[1], R.out[2]>> = Eval(case)[1]
+       \* shape "zst": value type and callables are zero-sized, so the closures cannot "touch" (+100) the value
+       /\ <<R.out[1], R.out[2]>> = (IF R.shape = "zst" THEN Untouched(Eval(case)[1]) ELSE Eval(case)[1])
        /\ R.calls = Eval(case)[2]
        /\ Laws(case)
        /\ seen' = seen \cup {case}
